@@ -80,7 +80,10 @@ def tlc(workdir, module, cfg, workers, timeout, simulate=None, seed=None, outfil
     outp = os.path.join(workdir, outfile)
     env = dict(os.environ)
     # bounded heaps: 16 validation JVMs run side by side
-    env["JAVA_TOOL_OPTIONS"] = (env.get("JAVA_TOOL_OPTIONS", "") + " -Xss256m -Xmx" + heap).strip()
+    # (the JVM's temporary directories go to the scratch directory, removed with it)
+    jtmp = os.path.join(workdir, "jtmp")
+    os.makedirs(jtmp, exist_ok=True)
+    env["JAVA_TOOL_OPTIONS"] = (env.get("JAVA_TOOL_OPTIONS", "") + " -Xss256m -Xmx" + heap + " -Djava.io.tmpdir=" + jtmp).strip()
     with open(outp, "w") as f:
         try:
             r = subprocess.run(cmd, cwd=workdir, stdout=f, stderr=subprocess.STDOUT, timeout=timeout, env=env)
